@@ -75,7 +75,7 @@ def generate(seed, tier):
         "noise": g.chance(0.7),
         "other_list": g.chance(0.5),
         # where the list lives and through how many Collection objects it is driven
-        "graph": g.choice(["graph", "graph", "dataset-default", "dataset-named", "conjunctive"]),
+        "graph": g.choice(["graph", "graph", "graph-simple", "dataset-default", "dataset-named", "conjunctive"]),
         "handles": g.choice([1, 1, 2]),
         # a store-level subscriber that only counts additions (legal configuration, must change nothing)
         "subscriber": g.chance(0.2),
@@ -148,9 +148,11 @@ def execute(trace, ctx):
 
     cfg = trace["config"]
     gk = cfg.get("graph", "graph")
-    if gk == "graph":
-        g = Graph()
+    if gk in ("graph", "graph-simple"):
+        g = Graph() if gk == "graph" else Graph(store="SimpleMemory")
         g_alt = Graph(g.store, g.identifier)
+        if gk == "graph-simple":
+            ctx.probe("list-in-graph-simple")
     else:
         from rdflib import ConjunctiveGraph, Dataset
         from rdflib.term import URIRef as _U
